@@ -26,6 +26,10 @@ pub struct Program {
     pub error: u8,
     /// 0 none, 1 suffix .res, 2 ttl head:2, 3 suffix .e + ttl ephemeral
     pub ret_opts: u8,
+    /// 0 no module; 1 the definition loads a module and calls a pure function of it;
+    /// 2 the explicit `.append` is done by a function exported from the module
+    #[serde(default)]
+    pub module: u8,
 }
 
 fn outputs() -> Vec<(&'static str, Vec<Value>)> {
@@ -47,7 +51,12 @@ pub fn programs() -> Vec<Program> {
         for side in [false, true] {
             for error in 0..2u8 {
                 for ro in 0..4u8 {
-                    v.push(Program { out, side_append: side, error, ret_opts: ro });
+                    v.push(Program { out, side_append: side, error, ret_opts: ro, module: 0 });
+                }
+                // modules: a pure helper; the side append done inside a module function
+                v.push(Program { out, side_append: side, error, ret_opts: 0, module: 1 });
+                if side {
+                    v.push(Program { out, side_append: side, error, ret_opts: 0, module: 2 });
                 }
             }
         }
@@ -57,7 +66,12 @@ pub fn programs() -> Vec<Program> {
 
 pub fn script(p: &Program) -> String {
     let mut body = String::new();
-    if p.side_append {
+    if p.module == 1 {
+        body.push_str("    let _k = (helper twice 21)\n");
+    }
+    if p.side_append && p.module == 2 {
+        body.push_str("    helper emit\n");
+    } else if p.side_append {
         body.push_str("    \"side\" | .append side --meta {u: 1} | ignore\n");
     }
     if p.error == 1 {
@@ -70,7 +84,12 @@ pub fn script(p: &Program) -> String {
         2 => "  return_options: {ttl: \"head:2\"}\n",
         _ => "  return_options: {suffix: \".e\", ttl: \"ephemeral\"}\n",
     };
-    format!("{{\n  run: {{|frame|\n{}  }}\n{}}}", body, ro)
+    let modules = if p.module > 0 {
+        "  modules: {\n    helper: \"export def twice [x] { $x * 2 }\\nexport def emit [] { 'side' | .append side --meta {u: 1} | ignore }\"\n  }\n"
+    } else {
+        ""
+    };
+    format!("{{\n{}  run: {{|frame|\n{}  }}\n{}}}", modules, body, ro)
 }
 
 /// frames stamped with this call id, in stream order
